@@ -24,7 +24,7 @@ ASSUMPTIONS = ['"conforming per its documentation" is the contract the fake usb1
                'find_all_adb_devices, _open, _find_and_open and _flush_buffers are outside the statement; errors injected into open/claim are noted, not asserted']
 REAL_VS_STUB = {'real': ['adb_shell.transport.usb_transport.UsbTransport', 'adb_shell.adb_device.AdbDevice / AdbDeviceUsb'],
                 'stub': ['usb1 / libusb (simadb.fakeusb1)', 'adbd or raw peer', 'clock']}
-EXPECT_PROBES = {'all': ['c20_session', 'c20_script', 'c20_err_in_read', 'c20_err_in_write', 'c20_err_in_close', 'c20_use_after_close', 'c20_by_serial', 'c20_by_port', 'c20_timeout_none', 'c20_kernel_driver', 'c20_recovery']}
+EXPECT_PROBES = {'all': ['c20_session', 'c20_script', 'c20_err_in_read', 'c20_err_in_write', 'c20_err_in_close', 'c20_use_after_close', 'c20_by_serial', 'c20_by_port', 'c20_timeout_none', 'c20_kernel_driver', 'c20_recovery', 'c20_unplugged']}
 OWN = ('recovery-failed', 'usb-error-swallowed', 'wrong-interface', 'wrong-endpoint', 'wrong-length', 'read-too-long', 'bytes-differ', 'timeout-ms', 'bare-usb-error', 'crash', 'after-close', 'close-not-idempotent',
        'wrong-result', 'differs-from-memory', 'hang', 'no-termination', 'wrong-device', 'unexpected-exception', 'timeout-instead-of-result', 'write-lost', 'wire-format')
 ERRS = ['io', 'nodevice', 'timeout', 'pipe', 'overflow', 'busy']
@@ -122,6 +122,9 @@ def generate(seed, tier):
             op['mtime'] = 9
     if g.chance(0.6):
         scn['usb']['faults'] = [{'pick': g.int(0, 1 << 30), 'err': g.pick(ERRS)}]
+        if g.chance(0.25):
+            # the cable is pulled: this and every later libusb call (the serial-number query included) fails with NO_DEVICE
+            scn['usb']['faults'][0].update({'err': 'nodevice', 'unplug': True})
     return {'seed': seed, 'scn': scn, 'family': 'session'}
 
 
@@ -162,7 +165,7 @@ def eval_session(case, tapes, out):
         run0, tape0 = run_scn(c0, 'scn0', 0, tapes, seed_idx=0)
         absorb(out, run0, tape0)
         n = run0.usb.ncall
-        scn['usb']['faults'] = [{'at': faults[0]['pick'] % max(1, n), 'err': faults[0]['err']}]
+        scn['usb']['faults'] = [dict(faults[0], at=faults[0]['pick'] % max(1, n))]
     if scn['usb'].get('faults') and scn['api'] == 'sync':
         # after the injected error: close(), connect() again (same object, same bus), one command
         name0 = next(iter(scn['device'].get('cmds', {})), None)
@@ -220,6 +223,8 @@ def eval_session(case, tapes, out):
     else:
         (k, name, err) = fired[0]
         bad = [r for r in recs if not r['ok']]
+        if any(f.get('unplug') for f in scn['usb'].get('faults') or []):
+            pr['c20_unplugged'] = 1
         if name == 'bulkRead':
             pr['c20_err_in_read'] = 1
         elif name == 'bulkWrite':
